@@ -302,6 +302,7 @@ fn calls_json(c: &[(usize, usize)]) -> J {
 struct Stats {
     evals: u64,
     sched_cases: u64,
+    long_logs: u64,
     diff_cases: u64,
     ref_cases: u64,
     decode_cases: u64,
@@ -315,9 +316,20 @@ struct Stats {
 
 // ------------------------------------------------------------------ A: schedule log
 fn schedule_case(ctx: &Ctx, rng: &mut Rng, id: u64, st: &mut Stats) {
-    let t = gen_track(rng, 300);
+    // one case in 40 is a very long log (around and beyond 65536 frames: the container's data size is
+    // a 32-bit field, nothing bounds the frame count to 16 bits) played at 1-2 samples per frame
+    let long = id % 40 == 17;
+    let t = if long {
+        let mut t = gen_track(rng, 8);
+        let nf = *rng.pick(&[65_535usize, 65_536, 65_537, 65_541, 70_001, 131_073]);
+        let proto: Vec<[u8; 14]> = (0..64).map(|_| { let mut f = [0u8; 14]; f.copy_from_slice(&rng.bytes(14)); if rng.chance(3, 4) { f[13] = 0xFF; } f }).collect();
+        t.frames = (0..nf).map(|k| { let mut f = proto[k % 61 % 64]; f[0] = k as u8; f[2] = (k >> 8) as u8; f[4] = (k >> 16) as u8; f }).collect();
+        t
+    } else {
+        gen_track(rng, 300)
+    };
     let pf = t.pf as usize;
-    let rate = match rng.below(8) {
+    let rate = match if long { rng.below(2) } else { rng.below(8) } {
         0 => pf,                       // spf = 1
         1 => pf + rng.below(pf as u64) as usize, // still spf = 1
         2 => 2 * pf + rng.below(pf as u64) as usize,
@@ -354,6 +366,9 @@ fn schedule_case(ctx: &Ctx, rng: &mut Rng, id: u64, st: &mut Stats) {
     let got: Vec<(u64, u8, u8)> = REC_LOG.with(|l| l.borrow().clone());
     st.evals += 1;
     st.sched_cases += 1;
+    if nf >= 65_535 {
+        st.long_logs += 1;
+    }
     st.events += got.len() as u64;
     st.samples += out.stream.len() as u64;
     let wit = |what: &str| {
@@ -713,6 +728,7 @@ pub fn run(ctx: &Ctx) -> Evidence {
     for r in res {
         tot.evals += r.evals;
         tot.sched_cases += r.sched_cases;
+        tot.long_logs += r.long_logs;
         tot.diff_cases += r.diff_cases;
         tot.ref_cases += r.ref_cases;
         tot.decode_cases += r.decode_cases;
@@ -729,6 +745,7 @@ pub fn run(ctx: &Ctx) -> Evidence {
     ev.evaluations = tot.evals;
     ev.distinct_nontrivial = tot.distinct.len() as u64;
     ev.add_num("schedule_cases", tot.sched_cases);
+    ev.add_num("schedule_cases_with_65535_or_more_frames", tot.long_logs);
     ev.add_num("register_writes_checked", tot.events);
     ev.add_num("r13_ff_frames", tot.r13_skips);
     ev.add_num("odd_length_stereo_calls", tot.odd_stereo_calls);
@@ -738,6 +755,7 @@ pub fn run(ctx: &Ctx) -> Evidence {
     ev.add_num("repository_files_decoded", nrepo);
     ev.add_num("values_compared", tot.samples);
     ctx.require("schedule cases", tot.sched_cases, 500);
+    ctx.require("very long logs played", tot.long_logs, 3);
     ctx.require("register writes checked", tot.events, 10_000);
     ctx.require("frames with R13=0xFF", tot.r13_skips, 100);
     ctx.require("odd-length stereo play() calls", tot.odd_stereo_calls, 100);
